@@ -446,7 +446,9 @@ fn render_fields(b: &mut Vec<u8>, fields: &[Field]) {
 fn gen_target(r: &mut Rng) -> String {
     let t = *r.pick(&TARGETS);
     if t == "/very/long" {
-        format!("/{}", "p".repeat(1 + r.usize(2000)))
+        // up to the judged line limit (the request line stays below 8000 octets)
+        let n = if r.chance(1, 2) { 1 + r.usize(2000) } else { 2000 + r.usize(5800) };
+        format!("/{}?q={}", "p".repeat(n / 2), "v".repeat(n - n / 2))
     } else if r.chance(1, 5) {
         format!("{t}{}", ascii_value(r).replace([' ', '\t'], "+"))
     } else {
@@ -472,9 +474,9 @@ const REASONS: [&str; 8] = ["OK", "Not Found", "Moved Permanently", "", "Interna
 
 fn status_line(r: &mut Rng, minor: u8, status: u16) -> String {
     match r.below(8) {
-        0 => format!("HTTP/1.{minor} {status}\r\n"),
-        1 => format!("HTTP/1.{minor} {status} \r\n"),
-        _ => format!("HTTP/1.{minor} {status} {}\r\n", r.pick(&REASONS)),
+        0 => format!("HTTP/1.{minor} {status:03}\r\n"),
+        1 => format!("HTTP/1.{minor} {status:03} \r\n"),
+        _ => format!("HTTP/1.{minor} {status:03} {}\r\n", r.pick(&REASONS)),
     }
 }
 
@@ -482,6 +484,7 @@ fn gen_response(r: &mut Rng) -> Vec<u8> {
     let minor = r.below(2) as u8;
     let status = match r.below(6) {
         0 => *r.pick(&[100u16, 101, 199, 200, 204, 299, 300, 301, 304, 399, 400, 404, 499, 500, 503, 599]),
+        1 => r.below(1000) as u16,
         _ => 100 + r.below(500) as u16,
     };
     let mut b = status_line(r, minor, status).into_bytes();
@@ -1154,16 +1157,16 @@ fn exhaustive_part(ctx: &mut Ctx, e: &Engines) {
             }
         }
     }
-    // every status 100..599 x version x reason form
-    for status in 100..600u16 {
+    // every status 000..999 x version x reason form
+    for status in 0..1000u16 {
         for minor in 0..2u8 {
             if !take(ctx) {
                 continue;
             }
             let line = match status % 3 {
-                0 => format!("HTTP/1.{minor} {status}\r\n"),
-                1 => format!("HTTP/1.{minor} {status} \r\n"),
-                _ => format!("HTTP/1.{minor} {status} Reason Phrase\r\n"),
+                0 => format!("HTTP/1.{minor} {status:03}\r\n"),
+                1 => format!("HTTP/1.{minor} {status:03} \r\n"),
+                _ => format!("HTTP/1.{minor} {status:03} Reason Phrase\r\n"),
             };
             let head = format!("{line}Server: s/{status}\r\nContent-Length: 0\r\n\r\n").into_bytes();
             drive_direct(ctx, e, &mut r, &head, false, true, true, "", false, status % 7 == 0);
@@ -1344,7 +1347,7 @@ pub fn spec() -> PropSpec {
         shards: super::shards_16,
         rule: "grammar-generated request and response heads (0..100 fields, duplicates, case variants, UTF-8, OWS forms, both versions, 16 methods, status 100..599) are (b) compared field by field and as p0f signature with an independent RFC 7230/7231/6265 + p0f reader, and (a) re-parsed with ~25 bodies each (all line-end styles, header-like text, binary, invalid and cut UTF-8, NUL, 64 KiB) through HttpProcessors, Http1Parser and scripted TCP connections (one segment, head|body, head cut, cut inside the final CRLFCRLF); small sub-domains are enumerated completely; a bucket is a distinct (direction, method/status class, version, field-count class, software/cookie/referer multiplicity, language outcome, horder entry kinds, duplicates, absent count) head class, a (body kind, direction, outcome) class or a (segmentation mode, body kind, outcome) class",
         assumptions: &[
-            "judged heads: CRLF line ends, start line METHOD SP target SP HTTP/1.x or HTTP/1.x SP 3DIGIT [SP reason] with status 100..599, field names are RFC 7230 tokens, values are UTF-8 without control characters whose first/last character after SP/HTAB trimming is not whitespace under any definition, at most 100 fields, lines below 8000 bytes",
+            "judged heads: CRLF line ends, start line METHOD SP target SP HTTP/1.x or HTTP/1.x SP 3DIGIT [SP reason] with any status 000..999, field names are RFC 7230 tokens, values are UTF-8 without control characters whose first/last character after SP/HTAB trimming is not whitespace under any definition, at most 100 fields, lines below 8000 bytes",
             "heads with colon-less lines, empty names, obs-fold, whitespace before the colon, non-UTF-8 bytes, more than 100 fields or unknown methods/versions are not compared with the reference; body independence is still judged for them (their head ends at the first CRLFCRLF); LF-only heads are crash-only",
             "Cookie and Referer are lifted out of headers/horder as the task specification prescribes; cookies are judged when there is exactly one Cookie field in RFC 6265 form (no empty pieces, no whitespace around '='), referer when there is at most one Referer field",
             "optional mark / value elision are judged strictly for names spelled exactly as in the p0f lists; for case variants only name, order and (if printed) value are judged",
